@@ -336,6 +336,40 @@ def run(ctx):
                 if lost: ctx.violation('xhtml-text-lost', case, lost, 'every word of the document', {'aspect': 'complete', 'feature': 'note-inside-note'})
             except Exception as e:
                 ctx.violation('xhtml-raised', case, repr(e)[:200], 'a string', {'exception': type(e).__name__, 'feature': 'note-inside-note'})
+        # styles that are odd and loadable: two styles that name each other as parent; a fill image that is not declared
+        import signal
+        class Slow(Exception): pass
+        def alarm(*_): raise Slow()
+        odd = {'parent styles in a circle': ('<style:style style:name="PA" style:family="paragraph" style:parent-style-name="PB"/><style:style style:name="PB" style:family="paragraph" style:parent-style-name="PA"><style:text-properties fo:color="#ff0000"/></style:style>',
+                                               '<text:p text:style-name="PA">w1q</text:p><text:p text:style-name="PB">w2q</text:p>'),
+               'a fill image that is not declared': ('<style:style style:name="gr1" style:family="graphic"><style:graphic-properties draw:fill="bitmap" draw:fill-image-name="Nope"/></style:style>',
+                                                     '<text:p>w1q<draw:frame draw:style-name="gr1" svg:width="1cm" svg:height="1cm"><draw:text-box><text:p>w2q</text:p></draw:text-box></draw:frame></text:p>')}
+        for label, (autos_, body_) in odd.items():
+            fn = os.path.join(tmpdir, 'odd.odt'); open(fn, 'wb').write(P.simple_package(body_, autostyles=autos_))
+            for css in (True, False):
+                ctx.oracle_cases += 1
+                case = {'directed': label, 'automatic-styles': autos_, 'body': body_, 'css': css}
+                old_h = signal.signal(signal.SIGALRM, alarm); signal.alarm(20)
+                try:
+                    have = xhtml_tokens(parse_any(ODF2XHTML(generate_css=css, embedable=False).odf2xhtml(fn)))
+                    if 'w1q' not in have or 'w2q' not in have: ctx.violation('xhtml-text-lost', case, have[:80], 'both words', {'aspect': 'complete'})
+                except Slow:
+                    ctx.violation('xhtml-does-not-terminate', case, 'no result after 20 s', 'a string', {'aspect': 'total'})
+                except Exception as e:
+                    ctx.violation('xhtml-raised', case, repr(e)[:200], 'a string', {'exception': type(e).__name__})
+                finally:
+                    signal.alarm(0); signal.signal(signal.SIGALRM, old_h)
+        # MoinMoin: a span that holds nothing but the blank between two words
+        fn = os.path.join(tmpdir, 'blank.odt')
+        open(fn, 'wb').write(P.simple_package('<text:p>w1q<text:span text:style-name="T1"> </text:span>w2q<text:span text:style-name="T1"><text:s/></text:span>w3q<text:span><text:tab/></text:span>w4q</text:p>',
+                                              autostyles='<style:style style:name="T1" style:family="text"><style:text-properties fo:font-weight="bold"/></style:style>'))
+        ctx.oracle_cases += 1
+        try:
+            mm = ODF2MoinMoin(fn).toString()
+            if not re.search(r'w1q\s+w2q\s+w3q\s+w4q', mm):
+                ctx.violation('moinmoin-white-space-lost', {'directed': 'spans that hold only white space'}, mm[:120], 'white space between the words', {'aspect': 'complete'})
+        except Exception as e:
+            ctx.violation('moinmoin-raised', {'directed': 'spans that hold only white space'}, repr(e)[:200], 'a string', {'exception': type(e).__name__})
     finally:
         import shutil; shutil.rmtree(tmpdir, ignore_errors=True)
 
